@@ -5,7 +5,7 @@ import numpy as np
 from hypothesis import strategies as st
 
 from vf import gen, quant
-from vf.core import LibRaised, Verdict, lib, mk_basis, mk_shell, nfunc
+from vf.core import LibRaised, Verdict, lib, mk_basis, mk_shell, nfunc, case_hash
 from vf.props.c04 import ill_list
 from vf.props.c09 import env_st
 from vf.props.c13 import KERNELS
@@ -19,7 +19,7 @@ RULE = ("(reorder) Hypothesis draws bases of 2-3 (thorough: 2-4) generalized she
         "real symmetric operators must be symmetric, momentum-type ones Hermitian, the repulsion array eight-fold symmetric.  "
         "(orientation) the shell blocks of every two-index kernel class are computed in both orientations, and of the repulsion "
         "kernel in all eight, independently, and must be index-exchanged (conjugated for momentum-type) copies of each other - "
-        "for generated quartets (exponents 0.1-10), for many-primitive quartets (1-10 primitives per shell, recursion work space "
+        "for generated quartets (exponents 0.1-10), for diffuse/very tight pairs (two-index kernels, generator of C08 'extreme-ratio'), for many-primitive quartets (1-10 primitives per shell, recursion work space "
         "2^20..2^24.7, generator of C04 'heavy') and for the fixed list of ill-conditioned quartets of C04.  Non-trivial: a "
         "permutation that moves a shell across one of a different block size; an orientation pair with different l.")
 ASSUMPTIONS = ["ERI relations judged at 2e-6 of the propagated magnitude (the accuracy C04 claims bounds how well two evaluations agree)"]
@@ -41,7 +41,7 @@ def case_st(draw, eri, nmax=3):
 
 def judge(case):
     shells = case["shells"]
-    env = dict(case["env"])
+    env = quant.with_screen_band(dict(case["env"]), shells, int(case_hash(shells), 16) >> 7)
     v = Verdict()
     quants = quant.ERI if case["eri"] else quant.INDEXED + quant.DENSITY
     b0 = mk_basis(shells)
@@ -217,6 +217,21 @@ def heavy_strategy(shard):
     return c04.heavy_st(shard["lo"], shard["hi"])
 
 
+@st.composite
+def orient_extreme_case(draw, la, lb):
+    """Two-index kernels in both orientations for a diffuse and a very tight shell (generator of C08 'extreme-ratio': exponent
+    ratios up to 1e7), where a recursion might be tempted to run on the other shell."""
+    from vf.props import c08
+    c = draw(c08.extreme_st(la, lb))
+    env = draw(env_st([s["coord"] for s in c["shells"]], nmax_pts=2))
+    return {"shells": c["shells"], "env": env, "eri": False, "extreme": c["extreme"]}
+
+
+def shards_orient_extreme(tier):
+    n = 1 if tier == "quick" else 12
+    return [{"id": f"{la}{lb}", "la": la, "lb": lb, "n": n, "cost": 20 * n} for la in range(4) for lb in range(4)]
+
+
 def shards_orient(tier):
     k, n = (16, 2) if tier == "quick" else (48, 12)
     return [{"id": i, "n": n, "cost": 40 * n} for i in range(k)]
@@ -231,6 +246,7 @@ def shards_ill(tier):
 SUBCHECKS = [
     SubCheck("reorder", judge, shards, strategy=lambda s: case_st(s["eri"], s.get("nmax", 3))),
     SubCheck("orientation", judge_orient, shards_orient, strategy=lambda s: orient_case()),
+    SubCheck("orientation-extreme", judge_orient, shards_orient_extreme, strategy=lambda s: orient_extreme_case(s["la"], s["lb"])),
     SubCheck("orientation-heavy", judge_heavy, shards_heavy, strategy=heavy_strategy),
     SubCheck("orientation-illcond", judge_ill, shards_ill, cases=lambda s: ill_list()[s["lo"]:s["hi"]][::2]),
 ]
